@@ -823,6 +823,7 @@ pub fn generate(prop: &str, thorough: bool, rng: &mut Rng, emit: &mut Emit) {
         "C14" => gen_c14(thorough, scale, rng, emit),
         "C15" => gen_c15(thorough, scale, rng, emit),
         "C17" => gen_c17(thorough, scale, rng, emit),
+        "C01" => gen_c01(thorough, scale, rng, emit),
         _ => super::ops2::generate(prop, thorough, rng, emit),
     }
 }
@@ -1029,6 +1030,36 @@ fn gen_c15(thorough: bool, scale: u64, rng: &mut Rng, emit: &mut Emit) {
             let sc = rscript(rng, b.len());
             emit("ts.all", vec![s(role), hex(&b), fmt_script(&sc), s(gen_tail(rng))]);
         }
+    }
+}
+
+fn gen_c01(_thorough: bool, scale: u64, rng: &mut Rng, emit: &mut Emit) {
+    // the preamble writers against scripted sinks, the preamble readers against scripted sources
+    for _ in 0..400 * scale {
+        let sidv = gen_sid(rng);
+        let wsc = rscript(rng, 16);
+        emit("sh.writeasync", vec![s("wt"), s(sidv), fmt_script(&wsc)]);
+        let wsc = rscript(rng, 16);
+        emit("frame.writeasync", vec![format!("wt:-:{sidv}"), fmt_script(&wsc)]);
+        emit("sh.write", vec![s("wt"), s(sidv), s(rng.range(0, 18))]);
+        let n = match rng.below(4) {
+            0 => 0,
+            1 => 1,
+            _ => rng.range(0, 40) as usize,
+        };
+        let payload = rng.bytes(n);
+        let mut b = enc_varint(0x54);
+        b.extend(enc_varint(sidv));
+        b.extend(&payload);
+        for cut in 0..=b.len().min(20) {
+            let sc = rscript(rng, b.len());
+            emit("sh.all", vec![s(0), hex(&b[..if cut == b.len().min(20) { b.len() } else { cut }]), fmt_script(&sc), s(gen_tail(rng))]);
+        }
+        let mut b = enc_varint(0x41);
+        b.extend(enc_varint(sidv));
+        b.extend(&payload);
+        let sc = rscript(rng, b.len());
+        emit("frame.all", vec![s(0), hex(&b), fmt_script(&sc), s(gen_tail(rng))]);
     }
 }
 
